@@ -830,7 +830,7 @@ class Image:
             raise ValueError
 
         result_image = self.copy()
-        result_image.img *= scalar
+        result_image.img = result_image.img * scalar
         return result_image
 
     __rmul__ = __mul__
